@@ -856,6 +856,10 @@ def generate(repo: Path, outdir: Path) -> dict:
     except _allocs.TranslationError as e:
         raise TranslationError(str(e))
     lines += _allocs.lean_lines(alloc_sites)
+    try:
+        lines += _allocs.index_guard_lines(_allocs.extract_index_guards(repo))
+    except _allocs.TranslationError as e:
+        raise TranslationError(str(e))
     lines += ['', 'end Mahotas.Generated', '']
     changed = _write_if_changed(outdir / 'Guards.lean', '\n'.join(lines))
     bare = [k for k, _, acts in actions if 3 in acts]
